@@ -17,7 +17,7 @@ PROP = {
 }
 
 MANIFEST = {
-    "text": "Theorems (Coq, every operator table with pairwise distinct binary operators - any number of levels, any prefix operators incl. ones that are also binary at any level, the empty table - every identifier chain, every expression, no depth bound): the parser model maps every well-formed rendering (parentheses omitted only where priority, left associativity, the postfix rule and the follow bound of prefix operators allow it) to exactly the tree it denotes (parse_complete, printer round trips for minimal / arbitrary redundant / full parenthesisation), and whatever it accepts is, token for token, such a rendering of the returned tree (parse_sound: no truncation, no regrouping; corollaries: a token list has one tree, unbalanced or otherwise non-rendering input is rejected). Parser half of C04, for every configuration and the full grammar: the model never panics (parse_no_panic) and needs at most (2*|ops|+12)*(|tokens|+2) calls (parse_total). The model follows parser2.go function by function and is compared AST-for-AST with the real parser on the real tokenizer's tokens over random tables x trees x three parenthesisations, all single-token deletions/insertions, and generated/mutated programs of the full grammar; the generator's own tree is a second, Coq-independent oracle.",
+    "text": "Theorems (Coq, every operator table with pairwise distinct binary operators - any number of levels, any prefix operators incl. ones that are also binary at any level, the empty table - every identifier chain, every expression, no depth bound): the parser model maps every well-formed rendering (parentheses omitted only where priority, left associativity, the postfix rule and the follow bound of prefix operators allow it) to exactly the tree it denotes (parse_complete, printer round trips for minimal / arbitrary redundant / full parenthesisation), and whatever it accepts is, token for token, such a rendering of the returned tree (parse_sound: no truncation, no regrouping; corollaries: a token list has one tree, unbalanced or otherwise non-rendering input is rejected). Parser half of C04, for every configuration and the full grammar: the model never panics (parse_no_panic) and needs at most (2*|ops|+12)*(|tokens|+2) calls (parse_total). The model follows parser2.go function by function and is compared AST-for-AST with the real parser on the real tokenizer's tokens over random tables x trees x three parenthesisations, all single-token deletions/insertions, string literals and quoted identifiers that spell an operator or text alias put in operator position (must be rejected or read as operands: token-by-token, kind-by-kind accounting of every accepted input), and generated/mutated programs of the full grammar; the generator's own tree is a second, Coq-independent oracle.",
     "design_ref": "DESIGN.md section 6 C03 (and C04 for the parser half: no panic for any table)",
     "note": "Trusted: Coq kernel + VM, the Go harness, the hand-written model (tied by correspondence only). Two genuine defects found and fixed in the repo: parser without binary operators panicked (parseOp index out of range), prefix operator that is also the highest-priority binary operator panicked on every use.",
     "technique": "Coq proof (big-step relation + induction on rendering trees / fuel) + vm_compute correspondence run",
